@@ -104,6 +104,9 @@ func ZZ_C14_H1() {
 	if frag == 1 {
 		zz.Assert("no-network-read-beyond-the-body-while-streaming", maxPosAtHandlerEnd <= bodyEnd)
 	}
+	// C01 clause: the stream is well-formed, so the pipelined request must be handled too - a
+	// handler that stops reading early is no reason to drop the connection
+	zz.Assert("pipelined-request-still-handled", len(seen) == 2)
 	if len(seen) >= 2 {
 		zz.Assert("next-request-is-the-sentinel", len(seen) == 2 && seen[1].method == "GET" && seen[1].uri == "/s")
 		zz.Assert("next-request-parsed-from-first-byte-after-body", consumedAtSecond == len(wire))
@@ -128,4 +131,64 @@ func minInt(a, b int) int {
 		return a
 	}
 	return b
+}
+
+// ZZ_C14_H2: a pooled body stream whose release failed (the peer hung up in the middle of a
+// streamed upload) must not leak its position into the next streamed request that gets the same
+// pooled object on another connection.
+func ZZ_C14_H2() {
+	firstChunked := zz.Choose("firstChunked", 2) == 1
+	secondChunked := zz.Choose("secondChunked", 2) == 1
+	nread := zz.Range("firstReads", 0, 2)
+	var w1 []byte
+	if firstChunked {
+		w1 = []byte("POST /u HTTP/1.1\r\nHost: h\r\nTransfer-Encoding: chunked\r\n\r\n5\r\nab") // cut inside the chunk
+	} else {
+		w1 = []byte("POST /u HTTP/1.1\r\nHost: h\r\nContent-Length: 9\r\n\r\nab") // 7 bytes missing
+	}
+	body := zz.Bytes("body2", 3)
+	var w2 []byte
+	if secondChunked {
+		w2 = append([]byte("POST /v HTTP/1.1\r\nHost: h\r\nTransfer-Encoding: chunked\r\n\r\n3\r\n"), body...)
+		w2 = append(w2, "\r\n0\r\n\r\n"...)
+	} else {
+		w2 = append([]byte("POST /v HTTP/1.1\r\nHost: h\r\nContent-Length: 3\r\n\r\n"), body...)
+	}
+	var got2 []byte
+	eof2 := false
+	calls := 0
+	core := zzNewCore(func(c context.Context, ctx *app.RequestContext) {
+		calls++
+		r := ctx.RequestBodyStream()
+		if string(ctx.Request.RequestURI()) == "/u" {
+			for i := 0; i < nread; i++ {
+				buf := make([]byte, 1)
+				r.Read(buf) //nolint:errcheck
+			}
+			return
+		}
+		for i := 0; i < 4; i++ {
+			buf := make([]byte, 2)
+			n, err := r.Read(buf)
+			got2 = append(got2, buf[:n]...)
+			if err == io.EOF {
+				eof2 = true
+				break
+			}
+			if err != nil {
+				break
+			}
+		}
+	})
+	s := zzNewServer(core)
+	s.StreamRequestBody = true
+	s.MaxRequestBodySize = 1 // prefetch one byte only, the rest is streamed
+	s.IdleTimeout = 1
+	_ = s.Serve(context.Background(), standard.ZZNewConn(zz.NewNetConn(w1)))
+	_ = s.Serve(context.Background(), standard.ZZNewConn(zz.NewNetConn(w2)))
+	zz.Cover("reached-assert", true)
+	zz.Cover("both-handled", calls == 2)
+	zz.Assert("second-request-handled", calls == 2)
+	zz.Assert("second-body-exact", bytes.Equal(got2, body))
+	zz.Assert("second-body-ends-with-eof", eof2)
 }
